@@ -716,3 +716,46 @@ def g17(ctx: Ctx):
         ok = not bad
         ctx.ob(f"{tname}", ok, "" if ok else f"terminal `{tname}` stops inside a name: {'; '.join(bad[:3])}: where the grammar tries this terminal first (PRINT items), one source variable is read as two different ones", file=GRAMMAR_REL, line=P.line(tname), witness="" if ok else '10 AB$="X":PRINT AB$')
     ctx.need(n >= 2, "grammar", f"only {n} variable terminals recognised")
+
+
+# ---------------------------------------------------------------------------
+# G21 SAME-TOKEN
+
+
+@rule("G21", "SAME-TOKEN: two terminals with the same blank-free spellings are one token standing in two syntactic positions (a hex constant in an expression / as a DIM bound); they admit blanks in the same places - otherwise `&H FF` is accepted in one position and refused in the other", ["C08"], floor=1)
+def g21(ctx: Ctx):
+    from .peg import GRAMMAR_REL, peg
+    from .relang import SPACE, erase_chars
+
+    P = peg(ctx)
+    terms = {n: e for n, e in P.rules.items() if P.kind(e) == "regex" and (e.name or n) == n}
+    full: Dict[str, Lang] = {}
+    core: Dict[str, Lang] = {}
+    for n, e in sorted(terms.items()):
+        try:
+            nfa = Lang.nfa_from_regex(e.re.pattern, e.re.flags & ~32)
+        except Exception:
+            continue
+        if nfa.approx:
+            continue  # look-arounds: the automaton over-approximates, no verdict on these
+        full[n] = Lang.from_nfa(nfa)
+        core[n] = Lang.from_nfa(erase_chars(nfa, SPACE))
+    names = sorted(full)
+    pairs = 0
+    for i, a in enumerate(names):
+        for b in names[i + 1 :]:
+            if core[a].is_empty() or not (core[a].included_in(core[b])[0] and core[b].included_in(core[a])[0]):
+                continue
+            if core[a].accepts(""):
+                continue  # content terminals that may be empty
+            pairs += 1
+            ok, w = full[a].equals(full[b])
+            ctx.ob(
+                f"{a}={b}",
+                ok,
+                "" if ok else f"terminals `{a}` and `{b}` spell the same token (their blank-free spellings coincide) but differ on where blanks may stand: {w!r} is accepted by one and refused by the other - the same constant is translated in one position and refused in the other, depending on layout",
+                file=GRAMMAR_REL,
+                line=P.line(a),
+                witness="" if ok else f"10 A={w}" if w else "",
+            )
+    ctx.need(pairs >= 1, "token pairs", "no two terminals with coinciding blank-free spellings found")
